@@ -106,14 +106,21 @@ def build(case, name=None):
     ents = bat_layout(case)
     bat_len = max(MB, (8 * len(ents) + MB - 1) // MB * MB)
     regs = [(G["bat"], bat_off, bat_len, 1), (G["meta"], meta_off, MB, 1)]
+    regs = [r for r, k in zip(regs, ("bat", "meta")) if k not in case.get("omit_regions", [])]
     chunks[3 * ALIGN] = region_table(regs)
     chunks[4 * ALIGN] = region_table(regs)
     fp = struct.pack("<II", bs, (2 if case.get("has_parent") else 0))
     items = [(G["file_parameters"], fp), (G["size"], struct.pack("<Q", case["size"])),
              (G["id"], uuid.UUID(int=case.get("disk_id", 0x1234)).bytes_le),
              (G["lss"], struct.pack("<I", ss)), (G["pss"], struct.pack("<I", 4096))]
-    if case.get("has_parent"):
-        items.append((G["locator"], parent_locator(case.get("locator", {"relative_path": "parent.vhdx"}))))
+    if case.get("has_parent") and not case.get("omit_locator"):
+        lt = uuid.UUID(case["locator_type"]) if case.get("locator_type") else None
+        items.append((G["locator"], parent_locator(case.get("locator", {"relative_path": "parent.vhdx"}), lt)))
+    omit = case.get("omit_items", [])
+    keys = ["file_parameters", "size", "id", "lss", "pss", "locator"]
+    items = [it for it in items if not any(it[0] == G[k] for k in omit if k in keys)]
+    if case.get("extra_item"):
+        items.append((uuid.UUID(case["extra_item"]), b"\x01\x02\x03\x04"))
     chunks[meta_off] = metadata_region(items)
     chunks[bat_off] = b"".join(struct.pack("<Q", e) for e in ents)
     for off, hexbytes in case.get("bitmaps", {}).items():
